@@ -36,7 +36,8 @@ E
   local tests; tests=$(ls $SRC/demo/*_test.go 2>/dev/null)
   if [ -n "$tests" ]; then
     cp $SRC/demo/*_test.go $WT/$d/
-    (set -o pipefail; cd $WT && go test -count=1 -run "${DEMO_RUN:-.}" ./$d/ 2>&1 | tail -15); local rc=$?
+    local tags=""; grep -qs 'go:build.*verif\|-tags verif' $SRC/demo/* && tags="-tags verif"
+    (set -o pipefail; cd $WT && go test $tags -count=1 -run "${DEMO_RUN:-.}" ./$d/ 2>&1 | tail -15); local rc=$?
     for t in $tests; do rm -f $WT/$d/$(basename $t); done
     return $rc
   else
